@@ -419,6 +419,8 @@ _MUTATED = []     # inputs modified by f(x) / f.gradient(x) / f.derivative(x)(d)
 
 def case_of(rng, S, node, vs):
     x, d = vec(rng, S), vec(rng, S)
+    if rng.random() < 0.06:
+        x = [0.0] * S.n          # the origin: L2Norm's `norm == 0` branch, sign(0), Huber's inner zone
     f = node.py
     xe, de = S.elem(x), S.elem(d)
     val = float(f(xe))
